@@ -299,14 +299,23 @@ func run(c *engine.Ctx, r *engine.Report) {
 		}
 	}
 	scs := scenarios(c)
-	bounds := []int{2}
-	if c.Thorough() {
-		bounds = []int{3}
+	boundsFor := func(sc scenario) []int {
+		n := sc.Ingress + sc.Accept + sc.Close
+		if sc.Cancel {
+			n++
+		}
+		if sc.Feeder > 0 {
+			n++
+		}
+		if c.Thorough() && n <= 4 {
+			return []int{3}
+		}
+		return []int{2}
 	}
 	// split each scenario's search over the shards at its first branching level
 	per := time.Until(c.Deadline) / time.Duration(len(scs)+1)
 	for si, sc := range scs {
-		for _, b := range bounds {
+		for _, b := range boundsFor(sc) {
 			cfg := dfsConfig(sc, c, b)
 			cfg.Shard, cfg.Shards = c.Shard, c.Shards
 			if per > 0 {
@@ -373,6 +382,16 @@ func run(c *engine.Ctx, r *engine.Report) {
 			continue
 		}
 		cfg := dfsConfig(sc, c, -1)
+		if rem := time.Until(c.Deadline); rem > 0 {
+			// an even share of what is left for the scenarios still to come on this shard
+			left := 0
+			for sj := si; sj < len(scs); sj++ {
+				if c.Mine(sj) {
+					left++
+				}
+			}
+			cfg.Deadline = time.Now().Add(rem / time.Duration(left))
+		}
 		res := engine.RunPORDFS(cfg)
 		r.Eval(int64(res.Executions))
 		r.Traces += int64(res.Executions)
@@ -475,7 +494,7 @@ func init() {
 		ID:     "C18",
 		Level:  "exploration",
 		Binary: "sched",
-		Rule: "thread sets {ingress x k, accept x m, close x c, optional parent cancel, optional IngressListener feeder} over one real MultiplexingListener (quick: 7 scenarios with up to four harness threads; thorough: all k+feeder<=3, m<=2, c<=2, cancel on/off) explored depth-first (a) over every schedule with at most 2 (thorough: 3) preemptions, select branches included, without any reduction, and (b) over all interleavings without a bound, reduced by sleep sets (footprint-based dependence); oracle: no deadlock, no panic, every call returns, every connection is returned by exactly one Accept xor closed, no Accept that starts after a Close returned hands out a connection; " +
+		Rule: "thread sets {ingress x k, accept x m, close x c, optional parent cancel, optional IngressListener feeder} over one real MultiplexingListener (quick: 7 scenarios with up to four harness threads; thorough: all k+feeder<=3, m<=2, c<=2, cancel on/off) explored depth-first (a) over every schedule with at most 2 preemptions (thorough: 3 for thread sets of up to four harness threads), select branches included, without any reduction, and (b) over all interleavings without a bound, reduced by sleep sets (footprint-based dependence); oracle: no deadlock, no panic, every call returns, every connection is returned by exactly one Accept xor closed, no Accept that starts after a Close returned hands out a connection; " +
 			"evaluations = schedules executed; distinct_nontrivial = distinct (scenario, per-connection fate, accept errors) outcomes observed",
 		Assumptions: []string{"scheduling points are the synchronisation operations of net/splitlistener.go (sequential consistency between them); the shims follow the Go runtime's algorithms for RWMutex writer preference, channel hand-off, select and close", "executions beyond the preemption bound are not covered; 'randomized stress with many goroutines' is sampled by the race companion only"},
 		Shards:      func(c *engine.Ctx) int { return 16 },
